@@ -132,7 +132,8 @@ func (d *IPK) Package(info *nfpm.Info, ipk io.Writer) error {
 		return err
 	}
 
-	_, err = ipk.Write(contents)
+	// io.Copy reports a destination that takes only part of the package
+	_, err = io.Copy(ipk, bytes.NewReader(contents))
 
 	return err
 }
